@@ -511,5 +511,8 @@ def flat_copy(P, F, max_depth=3):
             if progress:
                 break
     _recompute(C)
+    if not os.environ.get("VERIF_NO_NORMALIZE"):
+        from . import normalize
+        normalize.deref_temps(C)
     cache[F.key] = C
     return C
